@@ -58,8 +58,8 @@ SPEC = {'id': 'C15',
                'progress in every reachable state (an explicit enabled schedule), termination additionally needs a fair '
                'scheduler/mutex; pion internals (what makes NewPeerConnection fail, data-channel timing, Close of a '
                'PeerConnection not blocking) enter as the environment outcome of Catch; a malformed answer whose JSON '
-               'members have the wrong type is C13 (F6) and is not fed here; the binary-level clauses (polls stop '
-               'after SOCKS close / SIGTERM) are not exercised.',
+               'members have the wrong type is C13 (F6) and is not fed here; the binary-level clauses are oracle-only: the real client binary is run as a managed transport '
+               '(liveness under failing rendezvous, exit within a bound after SIGTERM / stdin close, also with a SOCKS connection open); that polling stops after a SOCKS close is observed in-process on the real SnowflakeConn (Close after the session / stream died, Melted() checked), not on the binary.',
  'design_ref': 'DESIGN.md §5.15',
  'trusted': ['Go runtime modelled: channels (buffered send/receive, close, receive from closed channel drains the buffer first), '
              'sync.Mutex, sync.Once, select',
